@@ -643,6 +643,7 @@ theorem addAny_K (hw : WF A a b) (h2 : WF2 a b) (f : Nat) (pend : List (Ref × S
   | gp => simp only [hk] at he; exact sec (by rw [hk]; decide) (by rw [hk]; exact he)
   | tg => simp only [hk] at he; exact sec (by rw [hk]; decide) (by rw [hk]; exact he)
   | user => simp only [hk] at he; exact sec (by rw [hk]; decide) (by rw [hk]; exact he)
+  | certmap => simp only [hk] at he; exact sec (by rw [hk]; decide) (by rw [hk]; exact he)
 
 /-! ## comparison -/
 
@@ -1279,6 +1280,7 @@ theorem diffAny_K (hw : WF A a b) (h2 : WF2 a b) : ∀ f, DiffK a b f (diffAny f
         | gp => simp only [hk] at he; exact sec (by rw [hk]; decide) (by rw [hk]; exact he)
         | tg => simp only [hk] at he; exact sec (by rw [hk]; decide) (by rw [hk]; exact he)
         | user => simp only [hk] at he; exact sec (by rw [hk]; decide) (by rw [hk]; exact he)
+        | certmap => simp only [hk] at he; exact sec (by rw [hk]; decide) (by rw [hk]; exact he)
 
 /-! ## the anchors -/
 
@@ -1376,6 +1378,7 @@ theorem addAny_top (hw : WF A a b) (f : Nat) (st st' : St) (r : Ref) (hr : rk r.
   | gp => simp only [hk] at he; exact sec (by rw [hk]; exact he)
   | tg => simp only [hk] at he; exact sec (by rw [hk]; exact he)
   | user => simp only [hk] at he; exact sec (by rw [hk]; exact he)
+  | certmap => simp only [hk] at he; exact sec (by rw [hk]; exact he)
 
 theorem anchorsA_K (hw : WF A a b) (h2 : WF2 a b) (k : Kind) (hk2 : rk k = 2) (bN : List String) :
     ∀ (l : List String) (T : List Ref) (st st' : St),
